@@ -39,6 +39,8 @@ RatEval(T, t, rpt) ==
                 [] s = "mul" -> RNorm(a.n * b.n, a.d * b.d)
                 [] s = "div" -> IF b.n = 0 THEN RBad ELSE RNorm(a.n * b.d, a.d * b.n)
                 [] s = "pow" -> IF b.d = 1 /\ b.n >= 0 /\ b.n <= 4 THEN RPow(a, b.n) ELSE RBad
+                [] s = "min" -> IF a.n * b.d <= b.n * a.d THEN a ELSE b
+                [] s = "max" -> IF a.n * b.d >= b.n * a.d THEN a ELSE b
                 [] OTHER -> RBad
     [] OTHER -> RBad
 CmpSems == {"gt", "lt", "ge", "le", "eq", "ne"}
